@@ -512,7 +512,7 @@ def _oracle_chain(case):
 # ------------------------------------------------------------------------------------------------------------
 def run(ctx):
     rng = ctx.rng
-    cases = [gen_leap(rng, ctx.quick) for _ in range(ctx.n(12, 250))]
+    cases = [gen_leap(rng, ctx.quick) for _ in range(ctx.n(5, 250))]
     for k in ("quad", "quartic", "nonpoly"):
         cases.append(gen_leap(rng, ctx.quick, kind=k))
     lines = [dict(op="leapfrog", q=c["q"], p=c["p"], eps=c["eps"], n=c["n"], A=c["A"], b=c["b"], c=c["c"],
@@ -578,7 +578,7 @@ def run(ctx):
             ctx.counterexample(dict(sub="slots", n=n), *res)
     ctx.extra["slots_exhaustive_below"] = 2 ** depth
     # NUTS: trace validation of the eagerly executed real tree builder + decisions replayed by the model
-    nuts = [gen_nuts(rng, ctx.quick) for _ in range(ctx.n(4, 40))]
+    nuts = [gen_nuts(rng, ctx.quick) for _ in range(ctx.n(2, 40))]
     nlines, nmeta = [], []
     for c in nuts:
         ctx.case(c, True)
@@ -617,8 +617,10 @@ def run(ctx):
         if res is not None:
             ctx.counterexample(c, *res)
     # chains: a statistical TEST of invariance (fixed keys, 6 sigma)
-    chains = [dict(sub="chain", sampler="hmc", target="gauss1", N=ctx.n(3000, 20000), num_steps=7, step_size=0.9, minv=0.25),
-              dict(sub="chain", sampler="nuts", target="gauss1", N=ctx.n(800, 8000), depth=4, step_size=0.6)]
+    chains = [dict(sub="chain", sampler="hmc", target="gauss1", N=ctx.n(2000, 20000), num_steps=7, step_size=0.9, minv=0.25),
+              dict(sub="chain", sampler="nuts", target="gauss1", N=8000, depth=4, step_size=0.6)]
+    if ctx.quick:
+        chains = chains[:1]      # the NUTS chain (XLA compile of the tree builder) is thorough-only; quick has the trace validation
     if not ctx.quick:
         for t in ("quartic1", "gauss2", "shifted1"):
             chains.append(dict(sub="chain", sampler="hmc", target=t, N=20000, num_steps=6, step_size=0.25))
